@@ -32,3 +32,23 @@ Proof.
   assert (P : In "ppl_new_Linear_Expression_from_Grid_Generator" prototypes) by (apply str_mem_In; vm_compute; reflexivity).
   specialize (H P). apply str_mem_In in H. vm_compute in H. discriminate H.
 Qed.
+
+Theorem no_dangling_outputs_refuted : ~ no_dangling_outputs_full.
+Proof. unfold no_dangling_outputs_full. intros H. apply (f_equal (@List.length string)) in H. vm_compute in H. discriminate H. Qed.
+
+(* ppl_set_deterministic_timeout registers a timeout_exception: the handler that runs on expiry is the one
+   of timeout_exception, which resets the WALL-CLOCK watchdog and leaves the deterministic one armed *)
+Theorem timeout_registration_refuted : ~ timeout_registration_full.
+Proof. unfold timeout_registration_full. intros H. vm_compute in H. discriminate H. Qed.
+
+Theorem det_timeout_not_reset : exists ch cl, In ch nonempty_chains /\
+  In ("ppl_set_deterministic_timeout", CT_class Timeout) timeout_registrations /\
+  handles ch (of_class Timeout) = Some cl /\ ~ In ResetDetTimeout (c_actions cl).
+Proof.
+  destruct nonempty_chains as [|ch l] eqn:E; [vm_compute in E; discriminate E|].
+  destruct (handles ch (of_class Timeout)) as [cl|] eqn:H.
+  - exists ch, cl. split; [now left|]. split; [vm_compute; tauto|]. split; [reflexivity|].
+    vm_compute in E. inversion E; subst ch. vm_compute in H. inversion H; subst cl.
+    cbn. intros [X|[X|X]]; try discriminate; contradiction.
+  - vm_compute in E. inversion E; subst ch. vm_compute in H. discriminate H.
+Qed.
